@@ -181,11 +181,12 @@ def solve_call(prog, Model, n, rng, rep, txt):
     """solve(start, end): only the visited periods' cells change."""
     exp = g.expected_classes(prog)
     eqs = [st for st in prog.statements if isinstance(st, g.Equation)]
-    m = Model(range(100, 100 + n))
+    origin = rng.choice([100, 0, 0, -2, 1])     # labels 0 / negative / falsy labels are labels like any other
+    m = Model(range(origin, origin + n))
     for k, v in g.random_data(rng, prog, n).items():
         m[k] = v
     before = snapshot(m)
-    labels = list(range(100, 100 + n))
+    labels = list(range(origin, origin + n))
     start = rng.choice([None] + labels)
     end = rng.choice([None] + labels)
     off = rng.choice([0, 0, -1])
@@ -205,7 +206,7 @@ def solve_call(prog, Model, n, rng, rep, txt):
         allowed |= {(en, p) for en in exp['endogenous'] for p in visited}
     changed = {(k, i) for k in before[0] for i in range(n) if before[0][k][i] != after[0][k][i]}
     st_changed = [i for i in range(n) if before[1][i] != after[1][i] or before[2][i] != after[2][i]]
-    info = {'script': txt, 'n': n, 'start': start, 'end': end, 'offset': off}
+    info = {'script': txt, 'n': n, 'start': start, 'end': end, 'offset': off, 'origin': origin}
     if changed - allowed or any(i not in visited for i in st_changed):
         rep.violate('solve-wrote-outside-range', f'solve({start},{end}) -> {tag}: changed {sorted(changed - allowed)} / status at {st_changed}, '
                     f'visited {list(visited)}', info)
